@@ -40,7 +40,7 @@ class FloorSim:
                 'stub': ['builtin hash as seen by emsarray.operations.depth (decides the processing order of depth dimensions)']}
 
     def assumptions(self, prop):
-        return ['wet layers are contiguous from the surface; the floor is static in time and shared by variables on the same (depth, spatial) dimensions',
+        return ['the pattern of layers holding data is static in time and shared by variables on the same (depth, spatial) dimensions (mostly a sea floor: contiguous from the surface; sometimes the surface layer or one mid-water layer is missing)',
                 'depth variables are floating point with NaN for missing; a variable has at most one depth dimension and always a grid kind',
                 'variable order inside the result is not compared']
 
